@@ -512,6 +512,44 @@ func direct(cases []c07case) (o obs) {
 	return o
 }
 
+// lateCorrelator: an accepted login written to the pipe while the correlator takes nothing for `wait` of REAL time
+// (it is busy behind a slow events output); handed to the processor directly the login waits for its receiver
+// however long that takes, so it must through the pipe as well. Returns "" or what went wrong.
+func lateCorrelator(dir string, wait time.Duration) string {
+	path := filepath.Join(dir, fmt.Sprintf("sshd-pipe-%d", atomic.AddInt64(&pipeSeq, 1)))
+	if err := syscall.Mkfifo(path, 0o600); err != nil {
+		return ""
+	}
+	defer os.Remove(path)
+	r := newRig(0) // unbuffered logins channel, as in cmd/namedpipe.go
+	ing := syslog.NewSyslogIngester(path, r.proc, namedpipe.NewNamedPipeIngester(mc.DebugLogger(), health.NewHealth()))
+	ctx, cancel := context.WithCancel(context.Background())
+	defer cancel()
+	done := make(chan error, 1)
+	go func() { done <- ing.Ingest(ctx) }()
+	w, err := os.OpenFile(path, os.O_WRONLY, 0)
+	if err != nil {
+		return ""
+	}
+	defer w.Close()
+	_, _ = w.WriteString("4711 Accepted password for late from 10.0.0.7 port 22 ssh2\n")
+	time.Sleep(wait)
+	select {
+	case err := <-done:
+		return fmt.Sprintf("the ingester returned (%v) while its login was waiting for the correlator", err)
+	default:
+	}
+	select {
+	case l := <-r.logins:
+		if l.PID != 4711 {
+			return fmt.Sprintf("login pid %d, want 4711", l.PID)
+		}
+		return ""
+	case <-time.After(5 * time.Second):
+		return fmt.Sprintf("the correlator became ready %v after the line was written: no login was waiting for it any more (the event was written: %d)", wait, len(r.rec.copies))
+	}
+}
+
 func runC07(run *mc.Run) int {
 	s := fieldSets(run.Thorough())
 	var sm sampler
@@ -526,6 +564,15 @@ func runC07(run *mc.Run) int {
 	}
 	dir = filepath.Join(dir, "c07-fifos")
 	_ = os.MkdirAll(dir, 0o755)
+	// (runs next to everything else: it is the only part that needs real time to pass)
+	lateWait := 12 * time.Second
+	if run.Thorough() {
+		lateWait = 75 * time.Second
+	}
+	lateRes := make(chan string, 1)
+	if run.Replay == "" {
+		go func() { lateRes <- lateCorrelator(dir, lateWait) }()
+	}
 	if run.Replay != "" {
 		var rp struct {
 			Cases []c07case `json:"cases"`
@@ -676,10 +723,15 @@ func runC07(run *mc.Run) int {
 	}
 	pwg.Wait()
 	n += len(reps) * len(pauses)
+	if m := <-lateRes; m != "" {
+		atomic.AddInt64(&differ, 1)
+		run.Violation("C07:accepted-password:correlator-late", map[string]any{"wait_s": lateWait.Seconds()}, "an accepted login written to the pipe while the correlator is busy: "+m)
+	}
+	n++
 	// audit side: every record line of the audit generator parses identically with and without its newline
 	na, bad := auditLinesSame(run)
 	cov := mc.Coverage{Level: "exploration", Evaluations: n*2 + na*2, Distinct: n/len(framings) + na, Exhaustive: complete, Samples: sm.samples,
-		Rule:  "differential, end to end: every (pid,message) of the C06 product (+ messages with internal runs of blanks) is processed once directly by the real sshd processor and once written as a framed line to a real FIFO read by the real SyslogIngester.Ingest (named-pipe ingester -> syslog ingester -> processor); framings: '<pid> <msg>\\n', 3 padding blanks, the message ending in blank / tab / CR, and the message without its pid prefix right after ordinary lines (its first word then IS the pid token); lines go in batches of 400, a differing batch is re-run line by line; one line per form is also written with a pause of 0.3 s (thorough: 1.5 s) in the middle of the record; events (minus wall-clock stamp), forwarded logins, counter deltas and errors must be equal. Every generated audit record line is parsed by auparse with and without its trailing newline. distinct_nontrivial = distinct (pid,message) pairs + distinct audit lines",
+		Rule:  "differential, end to end: every (pid,message) of the C06 product (+ messages with internal runs of blanks) is processed once directly by the real sshd processor and once written as a framed line to a real FIFO read by the real SyslogIngester.Ingest (named-pipe ingester -> syslog ingester -> processor); framings: '<pid> <msg>\\n', 3 padding blanks, the message ending in blank / tab / CR, and the message without its pid prefix right after ordinary lines (its first word then IS the pid token); lines go in batches of 400, a differing batch is re-run line by line; an accepted login is written while the correlator takes nothing for 12 s (thorough: 75 s) of real time and must still be waiting for it; one line per form is also written with a pause of 0.3 s (thorough: 1.5 s) in the middle of the record; events (minus wall-clock stamp), forwarded logins, counter deltas and errors must be equal. Every generated audit record line is parsed by auparse with and without its trailing newline. distinct_nontrivial = distinct (pid,message) pairs + distinct audit lines",
 		Extra: map[string]any{"lines_per_form": sm.forms, "framings": len(framings), "batches": batches, "pairs_that_differ": differ, "audit_lines": na, "audit_lines_differing": bad}}
 	cov.Assumptions = []string{"which layer strips the record terminator is not assumed: the framed path starts at the pipe"}
 	return run.Finish(cov)
@@ -721,7 +773,7 @@ func checkC11(pid, line string, o obs) string {
 		if len(o.Events) != 1 || o.Events[0].Outcome != "succeeded" {
 			return "a login was forwarded without a succeeded event"
 		}
-		if o.Logins[0].Source != o.Ptrs[0] {
+		if len(o.Ptrs) > 0 && o.Logins[0].Source != o.Ptrs[0] {
 			return "the forwarded login does not carry the event that was written"
 		}
 	}
@@ -906,6 +958,58 @@ func runGarbage(t *testing.T, run *mc.Run, prop string) int {
 				fmt.Sprintf("pid %q line %q: %s\nemitted: %v logins: %d metrics: %s", it.pid, l, msg, o.Raw, len(o.Logins), renderDelta(o.Metrics)))
 		}
 	}, run.Expired)
+	pipedLines := int64(0)
+	if prop == "C11" {
+		// the same judgement on lines as the log writer delivers them: each line alone through a real FIFO into the
+		// real syslog ingester (it, too, must not turn an unrecognised line into a recognised one or rewrite a
+		// field). Token strings of <= 2 tokens and the light mutations of every valid line; lines containing a
+		// newline are several lines to the transport and are left out; pid and message are separated by one blank.
+		var sub []item
+		garbage(2, 300, s, true, func(it item) {
+			if !strings.ContainsAny(it.x.Line, "\n") && it.pid != "" && !strings.ContainsAny(it.pid, " \n") && !strings.HasPrefix(it.x.Line, " ") {
+				sub = append(sub, it)
+			}
+		})
+		if len(sub) > 40000 {
+			sub = sub[:40000]
+		}
+		dir := os.Getenv("VERIF_BUILD")
+		if dir == "" {
+			dir = os.TempDir()
+		}
+		dir = filepath.Join(dir, "c11-fifos")
+		_ = os.MkdirAll(dir, 0o755)
+		jobs := make(chan item, 256)
+		var wg sync.WaitGroup
+		for wk := 0; wk < runtime.GOMAXPROCS(0); wk++ {
+			wg.Add(1)
+			go func() {
+				defer wg.Done()
+				for it := range jobs {
+					o := throughPipe(dir, []string{it.pid + " " + it.x.Line + "\n"})
+					atomic.AddInt64(&pipedLines, 1)
+					if msg := checkC11(it.pid, it.x.Line, o); msg != "" {
+						l := it.x.Line
+						if len(l) > 300 {
+							l = l[:300] + "..."
+						}
+						run.Violation(prop+":"+it.x.Form+":through-the-pipe:"+firstWords(msg, 3), map[string]any{"cases": []c07case{{Form: it.x.Form, Pid: it.pid, Msg: it.x.Line, Line: it.pid + " " + it.x.Line + "\n"}}},
+							fmt.Sprintf("pid %q line %q written to the sshd pipe: %s (events: %d, logins: %d)", it.pid, l, msg, len(o.Events), len(o.Logins)))
+					}
+				}
+			}()
+		}
+		for _, it := range sub {
+			if run.Expired() {
+				complete = false
+				break
+			}
+			jobs <- it
+		}
+		close(jobs)
+		wg.Wait()
+		n += pipedLines
+	}
 	handoffs := 0
 	if prop == "C19" {
 		// the counter follows the EVENT, not the hand-off of the login: every accepted-authentication line under
@@ -929,12 +1033,33 @@ func runGarbage(t *testing.T, run *mc.Run, prop string) int {
 			}
 		})
 		n += int64(handoffs)
+		// (v) a transient fault: the first write of a line's event fails with EINTR / EAGAIN (or another error),
+		// later writes succeed. Whether the code gives up or tries again: an emitted event is counted once.
+		tr := newRig(8)
+		forms(fs, func(x Exp) {
+			for kind := range failKinds {
+				for _, nfail := range []int{1, 2} {
+					tr.rec.failN, tr.rec.kind = nfail, kind
+					o := tr.run(true, "4711", x.Line, "")
+					tr.rec.failN = 0
+					n++
+					if msg := checkC19(x.Line, o, true); msg != "" {
+						run.Violation("C19:"+x.Form+":transient-write-failure:"+firstWords(msg, 3), map[string]any{"pid": "4711", "line": x.Line, "fail_first": nfail, "kind": kind},
+							fmt.Sprintf("line %q, the first %d write(s) of its event fail with %q: %s (events emitted: %d, counters: %s)", x.Line, nfail, failKinds[kind], msg, len(o.Events), renderDelta(o.Metrics)))
+					}
+				}
+			}
+		})
 	}
 	cov := mc.Coverage{Level: "exploration", Evaluations: int(n), Distinct: int(keyworded), Exhaustive: complete, Samples: sm.samples,
 		Rule:  fmt.Sprintf("(i) every string of <=%d tokens over a %d-token alphabet (all dispatch keywords, every connective/separator of the regular expressions, NUL, invalid UTF-8, newline, a %d-byte run); (ii) for every valid line of the reduced C06 product: every byte truncation, every single-token deletion and duplication, every connective inserted at every token boundary, every keyword swap, junk prefix/suffix, doubling; (iii) 8 odd pid tokens on every valid line; each through the real ProcessSshdLogEntry under recover. distinct_nontrivial = lines that begin with a dispatch keyword (reach a regular expression)", k, len(tokens)+1, long),
 		Extra: map[string]any{"lines_per_class": sm.forms, "lines_with_keyword": keyworded, "lines_that_emitted_an_event": emitted, "token_bound": k}}
+	if prop == "C11" {
+		cov.Rule += "; and the token strings of <= 2 tokens plus the light mutations of every valid line once more, each alone, as a line written to a real FIFO read by the real syslog ingester"
+		cov.Extra["lines_through_the_pipe"] = pipedLines
+	}
 	if prop == "C19" {
-		cov.Rule += "; (iv) every accepted-authentication line x the C05 environment orders {receiver ready, receiver late, never received + cancelled while parked, cancelled beforehand} in a synctest bubble: the counter moves with the written event whatever becomes of the login hand-off"
+		cov.Rule += "; (iv) every accepted-authentication line x the C05 environment orders {receiver ready, receiver late, never received + cancelled while parked, cancelled beforehand} in a synctest bubble: the counter moves with the written event whatever becomes of the login hand-off; (v) every form with the first one or two writes of its event failing (plain error, and errors matching context.Canceled / EOF / DeadlineExceeded / EINTR / EAGAIN) and later writes succeeding: an emitted event is counted once"
 		cov.Extra["handoff_order_executions"] = handoffs
 	}
 	return run.Finish(cov)
